@@ -836,6 +836,7 @@ fn run_gk_malformed(cx: &mut Ctx, rng: &mut Rng) {
     let mut expect_ok = Some(false);
     let mut extra_st: Vec<(String, Option<Vec<u8>>)> = vec![];
     let mut drop_uri: Option<String> = None;
+    let mut all_applied = false;
     let variant = rng.below(26);
     let label = format!("gk.malformed.{}", variant);
     let stream_of = |c: &GkContent| gk_stream(c);
@@ -959,9 +960,7 @@ fn run_gk_malformed(cx: &mut Ctx, rng: &mut Rng) {
         }
         18 => {
             // everything already applied
-            for p in patches.iter_mut() {
-                p.clear();
-            }
+            all_applied = true;
         }
         19 => {
             // unrelated uris in the map (pending and applied) must stay untouched
@@ -1010,7 +1009,7 @@ fn run_gk_malformed(cx: &mut Ctx, rng: &mut Rng) {
         }
     }
     let base = build_font(&sc.font);
-    let mut st: St = sc.entries.iter().zip(&patches).map(|(e, p)| (e.uri.clone(), if p.is_empty() { None } else { Some(p.clone()) })).collect();
+    let mut st: St = sc.entries.iter().zip(&patches).map(|(e, p)| (e.uri.clone(), if all_applied { None } else { Some(p.clone()) })).collect();
     if let Some(u) = drop_uri {
         st.remove(&u);
     }
